@@ -124,9 +124,10 @@ where
 
         let payload_offset = FlexVec::<T, L>::OFFSET_SIZE;
         if payload_offset > next_offset {
+            // An offset that does not even skip its own slot cannot become valid when more bytes arrive.
             return Some(Err(Error {
-                kind: ErrorKind::InsufficientSize,
-                pos: self.pos + payload_offset,
+                kind: ErrorKind::InvalidData,
+                pos: self.pos,
             }));
         }
 
